@@ -120,7 +120,7 @@ theorem runText_Fc (s : St) (rs : Ref.St) (p : List Expr) (hne : p ≠ []) (hp :
   obtain ⟨code, t, gs', hc, -, hfns⟩ := compileBegin_total_Fc p hne hp (isFnScope (clearTrace s)) {}
     { fns := s.fns, loops := s.loops, loopstack := s.loopstack, live := s.linear } rfl
   have hload : (runGen (compileBegin (isFnScope (clearTrace s)) {} p)).run (clearTrace s)
-      = (.ok (code, t), withLoops (clearTrace s) gs') := run_runGen_any _ (clearTrace s) _ gs' hc hfns
+      = (.ok (code, t), withLoops (clearTrace s) gs') := run_runGen_any _ (clearTrace s) _ gs' hc hfns.fns
   have hseg := seg_loaded hs gs' code
   have hrel' := relC_loaded hrel hs gs' code
   have hsim := segment_Fc_begin p hne hp _ {} rfl _ code t _ hc _ _ 0 _ [] hrel' hseg n
